@@ -116,6 +116,12 @@ PSpawn(p) == /\ procs[p].pc = "p_spawn"
                                                   procs[p].role, procs[p].crash, procs[p].upload)
                             ELSE IF q = p THEN [procs[p] EXCEPT !.pc = "done"] ELSE procs[q]]
              /\ UNCHANGED <<token, local, wrote, ev>> /\ Fixed
+(* the start of the sidecar fails (log file unopenable, exec fails): nobody *)
+(* is launched, and the token -- acquired or somebody else's -- stays        *)
+PSpawnFail(p) == /\ procs[p].pc = "p_spawn" /\ nf < MaxFaults
+                 /\ procs' = Set(p, "pc", "done")
+                 /\ ev' = ev \cup {"spawn_failed"}
+                 /\ nf' = nf + 1 /\ UNCHANGED <<token, local, wrote>> /\ FixedButNf
 (* ---- the sidecar ("child") --------------------------------------------- *)
 (* the marker becomes "2" before anything else happens in the child *)
 CSetenv(p) == /\ procs[p].pc = "c_setenv"
@@ -159,7 +165,7 @@ Kill(p) == /\ procs[p].pc \in {"t_stat", "t_remove", "t_create"} /\ nf < MaxFaul
 FaultStep(p) == TStatFail(p) \/ TRemoveFail(p) \/ TCreateFail(p)
 
 TokenStep(p) == TStat(p) \/ TRemove(p) \/ TCreate(p)
-Step(p) == FaultStep(p) \/ Kill(p) \/ PMode(p) \/ POpen(p) \/ PStatLocal(p) \/ TokenStep(p) \/ PSpawn(p) \/ CSetenv(p) \/ COpen(p) \/ CGo(p)
+Step(p) == FaultStep(p) \/ Kill(p) \/ PSpawnFail(p) \/ PMode(p) \/ POpen(p) \/ PStatLocal(p) \/ TokenStep(p) \/ PSpawn(p) \/ CSetenv(p) \/ COpen(p) \/ CGo(p)
 Next == \E p \in Ids : Step(p)
 Spec == Init /\ [][Next]_vars
 FairSpec == Spec /\ \A s \in Starters : WF_vars(\E p \in Ids : p[1] = s /\ Step(p))
@@ -197,6 +203,8 @@ AtMostOneAcquire == initToken # "stale" =>
                       (IF initToken = "fresh" THEN 1 ELSE 0) + Cardinality(Acquirers) <= 1
 (* ... and then the holder's token stays in place *)
 HolderKeepsToken == (initToken # "stale" /\ Acquirers # {}) => token = "fresh"
+(* a fresh token is never removed or replaced, whatever fails *)
+FreshTokenStays == initToken = "fresh" => token = "fresh"
 (* only applications touch the token *)
 OnlyApplicationsAcquire == \A p \in Acquirers : procs[p].born = "unset" /\ procs[p].upload
 (* every process terminates (no kills, no blocking calls in this protocol) *)
@@ -216,6 +224,7 @@ OutcomeOf(s) ==
     uploaders |-> Cardinality({p \in mine : Len(p) = 2 /\ procs[p].born = "1" /\ procs[p].upvar}),
     nested    |-> Cardinality({p \in mine : Len(p) > 2 /\ (procs[p].born = "1" \/ IsLaunchedSidecar(p))}),
     unmarked  |-> Cardinality({p \in mine : IsLaunchedSidecar(p) /\ procs[p].born # "1"}),
+    freshRemoved |-> initToken = "fresh" /\ token # "fresh",
     launched  |-> Cardinality(mine),
     acquired  |-> procs[<<s>>].acq,
     wrote     |-> wrote ]
@@ -254,5 +263,6 @@ W_CreateFailed == "create_failed" \in ev /\ OthersAtCreate
 W_KilledBeforeRemove == "kill_remove" \in ev /\ OthersAtCreate
 W_KilledBeforeCreate == "kill_create" \in ev /\ OthersAtCreate
 W_KilledThenAcquired == (ev \cap {"kill_stat", "kill_remove", "kill_create"}) # {} /\ Acquirers # {}
+W_SpawnFailed == "spawn_failed" \in ev /\ \E p \in Ids : procs[p].pc \in {"t_stat", "t_create"}
 W_GhostCreateLost == initToken = "ghost" /\ "excl_lost" \in ev
 =============================================================================
